@@ -514,3 +514,8 @@ impl Grammar {
         self.augmented_layout_index.is_some()
     }
 }
+
+// Verification hook: compiled only by `cargo kani` (cfg(kani)); see /verif/MANIFEST.json.
+#[cfg(kani)]
+#[path = "/verif/units/kx/compiler/grammar.rs"]
+pub(crate) mod verif_kani_grammar;
